@@ -472,4 +472,30 @@ theorem removePrefixSpec_suffix (p q : Str) : removePrefixSpec p q <:+ p :=
 example : pathRemovePrefix [SLASH, 0x61#8, SLASH, 0x62#8, NUL] [SLASH, 0x61#8, SLASH, 0x63#8, NUL]
     = some [0x62#8, NUL] := by decide
 
+
+/-! ## creader_readline -/
+
+/-- one call with the cursor anywhere inside the buffer: -1 at the end,
+otherwise the length of the next line as `lineRef` defines it, `*token` = the
+old cursor, and the cursor moves behind the line and its terminator.
+No access outside `[strt, fini)`. -/
+theorem creaderReadline_spec (mem : Str) (cursor : Nat) (h : cursor ≤ mem.length) :
+    creaderReadline mem cursor
+      = some (if (mem.drop cursor).isEmpty then (-1, cursor, cursor)
+              else (((lineRef (mem.drop cursor)).1 : Int), cursor, cursor + (lineRef (mem.drop cursor)).2)) :=
+  creaderReadline_eq mem cursor h
+
+/-- every successful call consumes at least one character and stays inside … -/
+theorem lineRef_progress (s : Str) (hs : s ≠ []) : 1 ≤ (lineRef s).2 ∧ (lineRef s).2 ≤ s.length :=
+  lineRef_used s hs
+
+/-- … hence a read loop `while ((len = creader_readline(..)) >= 0)` ends after
+at most `size + 1` calls, on every buffer (also one whose last line has no
+terminator) -/
+theorem creader_loop_ends (mem : Str) : ∃ l, creaderAll mem (mem.length + 2) 0 = some (l, true) :=
+  creaderAll_ends mem _ 0 (by omega) (by omega)
+
+-- "a\r\n" is one line of length 1 ("a\n" gave 0 before the repair)
+example : creaderReadline [0x61#8, CR, NL] 0 = some (1, 0, 3) := by decide
+
 end Igris.C19
